@@ -365,8 +365,14 @@ class PyModel:
                 arr = z3.Const(ex.fresh_name('sliced'), z3.ArraySort(I, Val))
                 ex.note_array_elems(arr, ('from', r))
                 nr = ex.new_list(m, arr, 'list')
+                # a slice of a typed list (the operand list of a tree node) holds elements of the same type
+                ty0 = self.engine.shapes.elem_ty(ex, r)
+                if ty0 is not None:
+                    ex.typed_refs[L.simp(nr).get_id()] = (nr, ty0)
                 ex.event('write', 'list', 'slice-copy', nr, z3.IntVal(0), m, ())
-                return z3.If(L.is_List(obj), L.ListV(nr), L.TupleV(nr))
+                if ex.branch(L.is_List(obj), 'slice-of-list'):
+                    return L.ListV(nr)
+                return L.TupleV(nr)
             ex.raise_('TypeError', 'list indices must be integers or slices')
         if ex.branch(L.is_Dict(obj), 'getitem-dict'):
             r = L.simp(Val.dref(obj))
